@@ -23,6 +23,12 @@ def gen_points(rng, n, mag, latlon):
     if latlon:
         lat0, lon0 = rng.uniform(-58, 58), rng.uniform(-170, 170)
         span = rng.choice([0.001, 0.003, 0.01])     # ~100 m .. 1 km
+        if rng.random() < 0.06:
+            lon0 = rng.choice([179.9999, -179.9999])      # nodes on both sides of the antimeridian
+
+            def wrap(v):
+                return v - 360.0 if v > 180.0 else (v + 360.0 if v <= -180.0 else v)
+            return [(round(lat0 + rng.uniform(-span, span), 7), round(wrap(lon0 + rng.uniform(-span, span)), 7)) for _ in range(n)]
         return [(round(lat0 + rng.uniform(-span, span), 7), round(lon0 + rng.uniform(-span, span), 7)) for _ in range(n)]
     if mag == "big":
         oy, ox = float(rng.randrange(10 ** 6, 10 ** 7)), float(rng.randrange(10 ** 6, 2 * 10 ** 7))
@@ -535,20 +541,31 @@ def check_closeto(sess, i, op, m, backend, store):
                 return False
         return True
     d6 = "C11/inmem/edges_closeto/missing/start-node-outside-box"
+    d19 = "C11/sqlite/edges_closeto/missing/edge-crosses-antimeridian"
+
+    def crosses_antimeridian(edge_list):
+        """Known finding D19: every edge of the list runs across longitude +-180 (SqliteMap indexes it with the
+        naive min/max of its longitudes, i.e. with the box that goes the long way round)."""
+        return latlon and all(abs(store.loc[a][1] - store.loc[b][1]) > 180.0 for a, b in edge_list)
+
+    def explain(edge_list, default):
+        if nodes or not edge_list:
+            return default
+        if backend == "inmem" and outside_box(edge_list):
+            return d6
+        if backend == "sqlite" and crosses_antimeridian(edge_list):
+            return d19
+        return default
     if kmax is None:
         missing = [k for _, _, k in inside if k not in got]
         if missing:
-            cls = "C11/%s/%s/missing" % (backend, what)
-            if backend == "inmem" and not nodes and outside_box(missing):
-                cls = d6
+            cls = explain(missing, "C11/%s/%s/missing" % (backend, what))
             vs.append(V(cls, "missing %r (radius %r at %r)" % (missing[:4], radius, loc), i))
     else:
         want = min(kmax, len(inside))
         if len(ans) < want and not border:
-            cls = "C11/%s/%s/truncation-too-short" % (backend, what)
             missing = [k for _, _, k in inside if k not in got]
-            if backend == "inmem" and not nodes and missing and outside_box(missing):
-                cls = d6
+            cls = explain(missing, "C11/%s/%s/truncation-too-short" % (backend, what))
             vs.append(V(cls, "got %d want %d" % (len(ans), want), i))
         if len(ans) > kmax:
             vs.append(V("C11/%s/%s/truncation-too-long" % (backend, what), "got %d max %d" % (len(ans), kmax), i))
@@ -556,9 +573,7 @@ def check_closeto(sess, i, op, m, backend, store):
             worst = max(exp[k][0] for k in got)
             better = [k for _, _, k in inside if k not in got and exp[k][0] < worst - 2 * tol_d]
             if better:
-                cls = "C11/%s/%s/truncation-not-nearest" % (backend, what)
-                if backend == "inmem" and not nodes and outside_box(better):
-                    cls = d6
+                cls = explain(better, "C11/%s/%s/truncation-not-nearest" % (backend, what))
                 vs.append(V(cls, "nearer elements not returned: %r" % (better[:4],), i))
     if not nodes:
         long_edges = [k for k, v in exp.items() if v[0] < radius and 0.02 < v[2] < 0.98 and
